@@ -943,7 +943,7 @@ class Audit:
             return
         # second attempt, with the function's calls of small repository helpers inlined (MIR): a value computed by a
         # helper (`read_u16_operand(code, ip)`) is then seen as the expression the helper computes
-        if getattr(self.F, "config", "default") == "default" and self._with_helpers_inlined(s):
+        if self._with_helpers_inlined(s):
             return
         s.verdict, s.reason = "open", desc
         # third attempt: a site inside a helper all of whose callers are known is evaluated in the context of each caller
@@ -1225,6 +1225,8 @@ class Audit:
                     if v_ is not None and t_[0] == "bin" and t_[1] in FLIP:
                         t_, v_ = ("bin", FLIP[t_[1]], t_[2], t_[3]), not v_
                     if v_ is not None:
+                        if getattr(self.F, "config", "default") != "default":
+                            t_ = _checked_spelling(t_)
                         got[M.show(t_, -20)] = v_
             for r in conds:
                 rx, want = r[5:].rsplit("=", 1)
@@ -1274,7 +1276,8 @@ class Audit:
         """the site with its operands as symbolic terms over the function's parameters, named variables and calls
         (temporaries substituted, `&*x` collapsed, nothing truncated): what the reviewed tables are matched against"""
         # ("desc": for naming a site, named values are written out as the expression that computed them; nothing is proved from it)
-        sh = lambda o: M.show(_simp(B.sym_op(o, through_vars="desc")), -30)
+        alt = getattr(self.F, "config", "default") != "default"
+        sh = lambda o: M.show(_simp(_checked_spelling(B.sym_op(o, through_vars="desc")) if alt else B.sym_op(o, through_vars="desc")), -30)
         if s.kind == "assert":
             m = s.operands
             parts = ["%s=%s" % (k, sh(m[k])) for k in ("len", "index", "a", "b") if k in m and isinstance(m[k], dict)]
@@ -1541,6 +1544,19 @@ def _simp(s):
         return s[2][0][1]   # a copy reads like the value it copies
     if s[0] == "field" and isinstance(s[1], tuple) and s[1] and s[1][0] == "agg" and len(s[1]) > 3 and s[2] in s[1][3] and len(s[1][3]) == len(s[1][2]):
         return s[1][2][s[1][3].index(s[2])]   # a field of a value built in place is the value it was built from
+    return s
+
+
+def _checked_spelling(s):
+    """a term of a build without overflow checks written as the default build writes it (`a + b` is `(a AddWithOverflow b).0`
+    there): descriptions and reviewed conditions are recorded in the default build's spelling"""
+    if not isinstance(s, tuple):
+        return s
+    if not s or not isinstance(s[0], str):
+        return tuple(_checked_spelling(x) for x in s)
+    s = tuple(_checked_spelling(x) if isinstance(x, tuple) else x for x in s)
+    if s[0] == "bin" and s[1] in ("Add", "Sub", "Mul") and len(s) == 4:
+        return ("field", ("bin", s[1] + "WithOverflow", s[2], s[3]), "0")
     return s
 
 
